@@ -63,6 +63,9 @@ func TestVerifC19_count_agg(t *testing.T) {
 		RTMaxBatch:  2,
 		Seeds:       5,
 		DomainLimit: 8,
+		SweepInsts:    []prio.Inst{c19Inst},
+		HistoryInsts:  []prio.Inst{c19Inst},
+		HistoryShares: []int{2, 3},
 	}
 	if r.Thorough() {
 		plan.FullShares = []int{2, 3, 4, 5, 6, 7, 8, 9, 10, 255}
